@@ -95,6 +95,25 @@ CHECKS.update({
     ),
 })
 
+CHECKS.update({
+    "C03": dict(
+        engine="E3 CrossHair + E4 z3 + E1 SymArray monitor",
+        cat="other",
+        text="Layer 1: CrossHair symbolically executes the real pre-solve stage (parser, signature/bracket/keyword checks) of all 8 operation families over token sequences; exhaustive per condition. Layer 2: every family member is corrupted by one edit (dimension, rank, keyword, tensor count, axis dropped/duplicated/renamed, bracket/arrow/parenthesis edits); z3 decides on the independent constraint system whether the corrupted call is really ill-formed; ill-formed calls must raise a documented class, no call may raise an internal class. Layer 3: SymArray dispatch counter must be 0 when the exception surfaces.",
+        note="The sympy-backed solver is cut in layer 1 (sentinel stub). For string-level edits only 'no internal type' and 'no computation before rejection' are demanded. 13-token alphabet, length 3 (quick) / 4 (thorough).",
+        tech="CrossHair symbolic execution of the real entry stage + SMT adjudication of ill-formedness of single-edit corruptions",
+        ref="DESIGN.md §3 C03",
+    ),
+    "C12": dict(
+        engine="E3 CrossHair",
+        cat="other",
+        text="CrossHair (z3-driven) executes the real stage1.parse_op, the real __str__ of the tree classes and the real el_op re-parsing of all operation families over token/chunk sequences selected by symbolic integers: totality with caller-quoting SyntaxErrors, invariance under redundant spaces, re-print stability. 'Confirmed over all paths' is exhaustive per alphabet and length. Arbitrary-character strings (symbolic str) are bug-finding only.",
+        note="Bounds: 13 tokens^3, 9 tokens^4, 17 chunks^2, 12 chunks^3, 8 chunks^3 x 3 spacing flags (quick); larger in thorough. Nothing is claimed beyond the alphabets.",
+        tech="CrossHair symbolic execution of the real parser and printer (exhaustive path confirmation)",
+        ref="DESIGN.md §3 C12",
+    ),
+})
+
 NOT_APPLICABLE = {
     "C17": "quantifies over all axis lengths and the syntactic form of generated text; stages 2-4 cannot run with symbolic sizes under any installed engine (sympy, numpy int32 casts), see DESIGN.md §3 C17",
 }
